@@ -32,10 +32,10 @@ F = [
       mechanism='same mechanism for a one-of inside a recurrent subgraph: on re-iteration every candidate is executed eagerly as an ordinary '
                 'node of the subgraph (laziness and containment are lost)',
       witness={'C10': 'witnesses/KF-RECINNER-ONEOF.json'}),
- dict(id='KF-RECOUT', family='rec_outside_consumer', properties=['C12', 'C01', 'C03', 'C11', 'C07', 'C08', 'C09'],
+ dict(id='KF-RECOUT', family='rec_outside_consumer', properties=['C12', 'C01', 'C03', 'C11', 'C07', 'C08', 'C09', 'C14'],
       kinds=['wrong_value', 'unexpected_args', 'missing_execution', 'schedule_dependent_outcome', 'missing_default_call',
              'unexpected_default_call', 'over_execution', 'never_node_ran', 'wrong_case_routed', 'value_instead_of_error',
-             'error_instead_of_value', 'wrong_error'],
+             'error_instead_of_value', 'wrong_error', 'delivered_before_complete'],
       mechanism='a node outside a recurrent subgraph that reads a node inside it without being ordered after the subgraph (it does not depend on '
                 'the recurrent result): it is executed once, with the value of whichever iteration happened to be visible when it became ready '
                 '(manager.py _is_ready_to_execute / hide_last_execution), and it is not re-executed; C03 asks for the final-iteration value. Everything '
